@@ -17,7 +17,8 @@
 struct qsv_ghost qsv_g;
 int g_sinfo_freed;
 void mpq_ILLlp_sinfo_free(mpq_ILLlp_sinfo *s) { g_sinfo_freed = 1; }
-void mpq_ILLlp_rows_clear(mpq_ILLlp_rows *r) { }
+int g_rows_cleared;
+void mpq_ILLlp_rows_clear(mpq_ILLlp_rows *r) { g_rows_cleared++; }
 #ifndef NR
 #define NR 2
 #endif
@@ -117,7 +118,9 @@ void harness(void)
 		    !(O->A.matbeg[col] + oldcnt < O->A.matsize && O->A.matind[O->A.matbeg[col] + oldcnt] == -1))
 			ASSUME(O->A.matfree > oldcnt + 2);
 #endif
+		{ IN_BOOL(had_rA); if (had_rA) O->rA = qsv_alloc(sizeof *O->rA);	/* a cached row view (problems from the file readers have one) */
 		rv = mpq_ILLlib_chgcoef(lp, row, cidx, coef);
+		if (rv == 0) ASSERT(O->rA == 0 && g_rows_cleared == (had_rA ? 1 : 0), "C05/C18: a coefficient change invalidates the cached row view: its arrays are cleared and the view is released, once"); }
 		ASSERT((rv == 0) == (0 <= row && row < NR && 0 <= cidx && cidx < NS), "C07: accepted iff row and structural column index are in range");
 		if (rv == 0) { if (!S[row][col]) { S[row][col] = 1; } D[row][col] = v; }
 		check("after chgcoef");
